@@ -87,6 +87,8 @@ class Native:
             if isinstance(x, str):
                 strs[x] = None
             elif isinstance(x, dict):
+                if type(x) is not dict:  # a dict subclass is also an object of its class (e.g. EventSet)
+                    uni.setdefault(type(x).__name__, {})[id(x)] = x
                 for k, v in x.items():
                     walk(k)
                     walk(v)
@@ -206,18 +208,30 @@ class Native:
             old = copy.deepcopy(args)
         if hasattr(self.side, "native_old"):
             old = self.side.native_old(self, fname, args, old)
-        fn = self.real(fname)
+        fn = None if fname in getattr(self.side, "NATIVE_CALL", {}) else self.real(self.side.CONTRACTS[fname].get("source_name") or fname)
         call_args = args
         if hasattr(self.side, "native_call_args"):
             call_args = self.side.native_call_args(self, fname, args)
         raised = None
         result = None
         try:
-            result = fn(**call_args)
+            if fname in getattr(self.side, "NATIVE_CALL", {}):
+                result = self.side.NATIVE_CALL[fname](self, call_args)
+            else:
+                result = fn(**call_args)
             if c.get("generator"):
                 result = list(result)
         except Exception as e:  # noqa: BLE001
             raised = e
+        if raised is None:
+            # objects created by the call belong to the post-state universe of forall/exists
+            pre_uni = self.universe
+            self.collect_universe([args, result])
+            for tname, objs in pre_uni.items():
+                have = {id(o) for o in self.universe.get(tname, [])} if tname != "str" else set(self.universe.get(tname, []))
+                for o in objs:
+                    if (o if tname == "str" else id(o)) not in have:
+                        self.universe.setdefault(tname, []).append(o)
         out["raised"] = type(raised).__name__ if raised is not None else None
         out["result"] = safe_repr(result)
         raises = c.get("raises", {})
